@@ -1448,7 +1448,7 @@ class EdgeQLSourceGenerator(codegen.SourceGenerator):
         elif node.value:
             if not self.sdlmode:
                 self._write_keywords('SET ')
-            self.write(f'{node.name} := ')
+            self.write(f'{ident_to_str(node.name)} := ')
             if not isinstance(node.value, (qlast.BaseConstant, qlast.Set)):
                 self.write('(')
             self.visit(node.value)
@@ -1456,7 +1456,7 @@ class EdgeQLSourceGenerator(codegen.SourceGenerator):
                 self.write(')')
         elif not self.sdlmode:
             self._write_keywords('RESET ')
-            self.write(node.name)
+            self.write(ident_to_str(node.name))
 
     def _eval_bool_expr(
         self,
@@ -2521,7 +2521,7 @@ class EdgeQLSourceGenerator(codegen.SourceGenerator):
         self, node: qlast.SessionResetAliasDecl
     ) -> None:
         self._write_keywords('RESET ALIAS ')
-        self.write(node.alias)
+        self.write(ident_to_str(node.alias))
 
     def visit_StartTransaction(self, node: qlast.StartTransaction) -> None:
         self._write_keywords('START TRANSACTION')
@@ -2550,17 +2550,17 @@ class EdgeQLSourceGenerator(codegen.SourceGenerator):
 
     def visit_DeclareSavepoint(self, node: qlast.DeclareSavepoint) -> None:
         self._write_keywords('DECLARE SAVEPOINT ')
-        self.write(node.name)
+        self.write(ident_to_str(node.name))
 
     def visit_RollbackToSavepoint(
         self, node: qlast.RollbackToSavepoint
     ) -> None:
         self._write_keywords('ROLLBACK TO SAVEPOINT ')
-        self.write(node.name)
+        self.write(ident_to_str(node.name))
 
     def visit_ReleaseSavepoint(self, node: qlast.ReleaseSavepoint) -> None:
         self._write_keywords('RELEASE SAVEPOINT ')
-        self.write(node.name)
+        self.write(ident_to_str(node.name))
 
     def visit_DescribeStmt(self, node: qlast.DescribeStmt) -> None:
         self._write_keywords('DESCRIBE ')
